@@ -180,3 +180,13 @@ package cstate
 //@   modifies nothing
 //@   ensures [eachSetFromItsNamesake] r.Validators != nil && r.Validators.Proposer == state.Validators.Proposer && len(r.Validators.Validators) == len(state.Validators.Validators) && r.LastValidators != nil && r.LastValidators.Proposer == state.LastValidators.Proposer && len(r.LastValidators.Validators) == len(state.LastValidators.Validators) && r.NextValidators != nil && r.NextValidators.Proposer == state.NextValidators.Proposer && len(r.NextValidators.Validators) == len(state.NextValidators.Validators)
 //@   ensures [scalarsCopied] r.LastBlockHeight == state.LastBlockHeight && r.LastBlockID == state.LastBlockID && r.ChainID == state.ChainID && r.InitialHeight == state.InitialHeight && r.LastHeightValidatorsChanged == state.LastHeightValidatorsChanged
+
+// The params record is keyed by the marshalled RECORD (params and the height they last changed at), the
+// same bytes that are stored: two records that differ in that height never share a key.
+//@ aspect func saveConsensusParamsInfo(db kaidb.KeyValueWriter, lastHeightChanged uint64, params kproto.ConsensusParams) (r common.Hash)
+//@   for C14
+//@   modifies *
+//@   opt assumecallreqs
+//@   atcall BytesToHash requires [keyFromTheMarshalledRecord] sameArray(b, result(ConsensusParamsInfo.Marshal, 0)) && len(b) == len(result(ConsensusParamsInfo.Marshal, 0))
+//@   atcall WriteConsensusParamsInfo requires [storedUnderThatKey] hash == result(BytesToHash) && paramsInfo.LastHeightChanged == lastHeightChanged
+//@   ensures [returnsTheKey] r == result(BytesToHash)
